@@ -256,9 +256,23 @@ func RunVM(bm *bondmachine.Bondmachine, rules []string, T int) Trace {
 	return tr
 }
 
-// RunSPS runs Bondmachine.SinglePipelineSimulate (no delays) and renders its result.
-func RunSPS(bm *bondmachine.Bondmachine, input []string) string {
-	out, err := bm.SinglePipelineSimulate("unsigned", input, nil)
+// SharedDelays is ONE per-opcode delay table handed to every simulation of a scenario that asks for
+// delays, the way cmd/simfinetune shares one table between its concurrent workers. Every
+// distribution has a single value, so simulation results stay deterministic.
+var SharedDelays = &simbox.SimDelays{OpcodeDelays: map[string]simbox.DelayDistribution{
+	"inc":   {2: 1.0},
+	"i2rw":  {1: 1.0},
+	"r2owa": {1: 1.0},
+}}
+
+// RunSPS runs Bondmachine.SinglePipelineSimulate (without delays, or with the shared delay table)
+// and renders its result.
+func RunSPS(bm *bondmachine.Bondmachine, input []string, delays bool) string {
+	var sd *simbox.SimDelays
+	if delays {
+		sd = SharedDelays
+	}
+	out, err := bm.SinglePipelineSimulate("unsigned", input, sd)
 	if err != nil {
 		return "error: " + err.Error()
 	}
@@ -278,6 +292,7 @@ type Sim struct {
 	Rules []string // simbox rules for RunVM
 	SPS   bool     // run SinglePipelineSimulate with Input instead of RunVM
 	Input []string
+	Delay bool // SPS only: pass the shared per-opcode delay table
 }
 
 // Scenario is a set of simulations run concurrently in one process (one = run alone).
@@ -343,6 +358,10 @@ func All() []Scenario {
 			Note: "two concurrent SinglePipelineSimulate calls on the same machine, different stimuli (as cmd/simfinetune does)"},
 		{Name: "twosps-diff", Sims: []Sim{{Def: InOut(spsProg), SPS: true, Input: []string{"5"}}, {Def: InOut(spsProg2), SPS: true, Input: []string{"7"}}}, Bound: [2]int{1, 2},
 			Note: "two concurrent SinglePipelineSimulate calls on different machines"},
+		{Name: "twosps-same-delays", Sims: []Sim{{Def: InOut(spsProg), SPS: true, Input: []string{"5"}, Delay: true}, {Def: InOut(spsProg), Share: 1, SPS: true, Input: []string{"9"}, Delay: true}}, Bound: [2]int{1, 2},
+			Note: "two concurrent SinglePipelineSimulate calls sharing one machine and ONE per-opcode delay table (as cmd/simfinetune does)"},
+		{Name: "twosps-diff-delays", Sims: []Sim{{Def: InOut(spsProg), SPS: true, Input: []string{"5"}, Delay: true}, {Def: InOut(spsProg2), SPS: true, Input: []string{"7"}, Delay: true}}, Bound: [2]int{1, 2},
+			Note: "two concurrent SinglePipelineSimulate calls on different machines sharing one per-opcode delay table"},
 	}
 	return s
 }
@@ -394,7 +413,7 @@ func (b *Built) runSim(i int) []string {
 		prefix = fmt.Sprintf("sim%d ", i)
 	}
 	if s.SPS {
-		return []string{prefix + "SPS " + RunSPS(b.BMs[i], s.Input)}
+		return []string{prefix + "SPS " + RunSPS(b.BMs[i], s.Input, s.Delay)}
 	}
 	return RunVM(b.BMs[i], s.Rules, b.T).Lines(prefix)
 }
